@@ -14,8 +14,9 @@ RULE = ("every history up to the depth bound over: assign through the "
         "distinct = distinct (model state, event)")
 EXPLANATION = ("direct exploration; reference model = two dicts + a 'link "
                "broken' bit per prototyped attribute")
-BOUNDS = {"quick": "depth 4 with dedup over ~60 events", "thorough":
-          "depth 5"}
+BOUNDS = {"quick": "depth 3 with dedup over ~75 events (five-attribute "
+                   "classes), depth 5 (two-attribute prototype class, chain)",
+          "thorough": "depth 4 / 6"}
 ASSUMPTIONS = ["a notification on delegate *swap* is neither required nor "
                "forbidden", "listenable=True"]
 MIN_OUTCOMES = {t: ["delegated-write", "prototype-local-write",
@@ -370,7 +371,8 @@ def shards(tier):
 def run_shard(ctx, shard, tier):
     kind = shard["kind"]
     evs = menu(kind)
-    depth = 4 if tier == "quick" else 5
+    small = kind in ("proto2", "chain")
+    depth = (5 if small else 3) if tier == "quick" else (6 if small else 4)
     frontier = [[]]
     n_exec = 0
     for d in range(1, depth + 1):
